@@ -39,6 +39,16 @@ impl<K: PartialEq, V> VecMap<K, V> {
         }
         None
     }
+    pub fn get_mut<Q: ?Sized>(&mut self, k: &Q) -> Option<&mut V> where K: std::borrow::Borrow<Q>, Q: PartialEq {
+        let mut i = 0;
+        while i < self.items.len() {
+            if self.items[i].0.borrow() == k { return Some(&mut self.items[i].1); }
+            i += 1;
+        }
+        None
+    }
+    /// HashMap::entry, subset: or_default / or_insert / or_insert_with
+    pub fn entry(&mut self, k: K) -> VecMapEntry<'_, K, V> { VecMapEntry { m: self, k } }
     pub fn len(&self) -> usize { self.items.len() }
     pub fn is_empty(&self) -> bool { self.items.is_empty() }
     pub fn clear(&mut self) { self.items.clear() }
@@ -46,6 +56,17 @@ impl<K: PartialEq, V> VecMap<K, V> {
     pub fn keys(&self) -> impl Iterator<Item = &K> { self.items.iter().map(|(k, _)| k) }
     pub fn values(&self) -> impl Iterator<Item = &V> { self.items.iter().map(|(_, v)| v) }
     pub fn values_mut(&mut self) -> impl Iterator<Item = &mut V> { self.items.iter_mut().map(|(_, v)| v) }
+}
+pub struct VecMapEntry<'a, K, V> { m: &'a mut VecMap<K, V>, k: K }
+impl<'a, K: PartialEq, V> VecMapEntry<'a, K, V> {
+    pub fn or_insert_with<F: FnOnce() -> V>(self, f: F) -> &'a mut V {
+        let mut i = 0;
+        while i < self.m.items.len() { if self.m.items[i].0 == self.k { break; } i += 1; }
+        if i == self.m.items.len() { self.m.items.push((self.k, f())); }
+        &mut self.m.items[i].1
+    }
+    pub fn or_insert(self, v: V) -> &'a mut V { self.or_insert_with(move || v) }
+    pub fn or_default(self) -> &'a mut V where V: Default { self.or_insert_with(V::default) }
 }
 impl<K: PartialEq, V> IntoIterator for VecMap<K, V> {
     type Item = (K, V);
